@@ -62,6 +62,14 @@ def plan_for(pid, tier, seed):
         return dict(level="model_checking", mc=[], traces=[], special=[borrow.run_c05],
                     assumptions=["rustc's verdict (the executor for compile-time properties)",
                                  "Borrow.tla's statement language: the family of programs of <= 3 statements over <= 2 tokens of every kind"])
+    if pid == "C19":
+        jobs = []
+        for prof in ("dbg", "rel"):
+            jobs += tj("sizes_driver", "boundaries", tier, prof, seed, 1, ["Sizes"])
+        return dict(level="model_checking", traces=jobs, special=[],
+                    mc=[dict(module="SizesModel", cfg="SizesModel", workers=4, timeout=600)],
+                    assumptions=["TLC; Big.tla digit arithmetic (TLC integers are 32-bit)",
+                                 "SizesModel.tla: the code's checked/unchecked operations transcribed by hand, for an 8-bit word"])
     if pid == "C20":
         jobs = []
         for prof in ("dbg", "rel"):
